@@ -163,6 +163,7 @@ PROPS = {
             {"kind": "verus", "unit": "tabsize"},
             {"kind": "verus", "unit": "intops"},
             {"kind": "verus", "unit": "ssample"},
+            {"kind": "scan", "spec": "preflight_sites"},
         ],
         "unreached": ["dyn_size of XStack (walks Rc strong counts), Regex; that every container value is built through ManagedXValue::new (argued from the private fields of the struct); the pre-flight checks of the individual natives (V-intops decides those of the integer builtins, V-nlargest the capacity request of n_largest / n_smallest)"],
         "assumptions": [],
